@@ -1,6 +1,7 @@
 import XModel.MadxThms
 import XModel.MadxParen
 import XModel.MadxPrec
+import XModel.MadxAssign
 /-!
 # C19 — MAD-X expressions mean the same deferred as evaluated immediately
 Model: `XModel/Madx.lean`.  `evalI ops false` is `MadxEval` over plain variables (the callbacks are
@@ -20,6 +21,15 @@ contrary to Python and to ordinary notation and is what the grammar `atom: "-" a
 the bare text `-a^b` is `(-a)^b`.  What is NOT covered: the lexer (NUMBER forms, the merge of `**` and `^` into one token)
 is `tokOfJson` in the driver, outside every theorem; there is no derivation relation for the grammar, so "the model
 parser implements the lark grammar" rests on the transcription plus the driver's correspondence with lark's trees.
+
+Statements.  The second alternative of the start rule, `NAME "=" sum -> assign_var`, is `XModel/MadxAssign.lean`:
+`parseStmt`, the immediate run `runImm` (each `n = e` stores the number `e` evaluates to) and the deferred run `runDef`
+(each `n = e` DEFINES `n` by the tree; the variables hold `settle`: the definitions re-evaluated in list order over the
+plain values, with the guarded division).  `C19_assign_deferred_eq_immediate`, `C19_assign_follows_updates` and
+`C19_assign_parse` are the three clauses of the property for statements; `C19_assign_push_model` ties the list-order
+`settle` to the push-model specification (`Consistent`: every defined variable holds the value of its tree on the
+current environment — what C01 proves of the manager) on the scope `WellOrdered`, and `C19_assign_scope_needed` shows
+that both fail outside it.
 -/
 namespace Properties.C19
 open Madx
@@ -252,5 +262,130 @@ example : parse (render (.mul (.add (.var "a") (.var "b")) (.neg (.pow (.var "c"
 example : render (.mul (.add (.var "a") (.var "b")) (.neg (.pow (.var "c") (.number "2"))))
     = [.lpar, .name "a", .plus, .name "b", .rpar, .star, .minus, .lpar, .name "c", .pow, .num "2", .rpar] := rfl
 end Examples
+
+/-! ### the assignment statement `NAME = sum` -/
+
+/-- **statements, deferred = immediate**: for every value algebra, all plain values and every `WellOrdered` statement
+    list (each assignment reads only variables that are plain or assigned earlier; none is assigned twice or assigned
+    after being read), unless a division by zero occurs in the immediate run (the hypothesis of `C19_agree`, on the whole
+    run), running the statements deferred — every `n = e` a definition through the manager — and reading the variables
+    gives what running them immediately gives: the same environment, hence the same value for every assigned variable,
+    or the same exception.  Of `WellOrdered` the proof uses "no variable assigned twice"; the reading conditions are
+    what makes the list-order `settle` the manager's push model (`C19_assign_push_model`). -/
+theorem C19_assign_deferred_eq_immediate {V : Type} (ops : Ops V) (hd : DivOnly ops) (plain : Env V) (ss : List Stmt)
+    (hw : WellOrdered ss = true) (h : runImm ops plain ss ≠ .error .zeroDiv) :
+    (runDef ops ⟨plain, []⟩ ss).bind (fun st => st.env ops) = runImm ops plain ss :=
+  deferred_eq_immediate ops hd plain ss hw h
+
+/-- the same for a successful immediate run, with the deferred state spelled out -/
+theorem C19_assign_deferred_state {V : Type} (ops : Ops V) (hd : DivOnly ops) (plain : Env V) (ss : List Stmt)
+    (hw : WellOrdered ss = true) (envI : Env V) (hI : runImm ops plain ss = .ok envI) :
+    ∃ st, runDef ops ⟨plain, []⟩ ss = .ok st ∧ st.plain = plain ∧ st.defs = defsOf ss ∧ st.env ops = .ok envI ∧
+      Consistent ops plain (defsOf ss) envI :=
+  deferred_eq_immediate_ok ops hd plain ss hw envI hI
+
+/-- **statements keep agreeing after the variables change through the manager**: after any list of later plain updates
+    of variables the statements do not assign, the deferred variables hold what the statements give when run
+    immediately FROM SCRATCH on the updated plain values, and that environment solves the push-model specification of
+    the updated state.  (The immediate environment itself stays stale: `C19_assign_immediate_stale`.) -/
+theorem C19_assign_follows_updates {V : Type} (ops : Ops V) (hd : DivOnly ops) (plain : Env V) (ss : List Stmt)
+    (hw : WellOrdered ss = true) (st : DState V) (hrun : runDef ops ⟨plain, []⟩ ss = .ok st)
+    (us : List (String × V)) (hus : ∀ u ∈ us, u.1 ∉ assigned ss)
+    (envI : Env V) (hI : runImm ops (plain.sets us) ss = .ok envI) :
+    (st.updates us).env ops = .ok envI ∧ Consistent ops (plain.sets us) (defsOf ss) envI :=
+  deferred_follows_updates_list ops hd plain ss hw st hrun us hus envI hI
+
+/-- one update -/
+theorem C19_assign_follows_update {V : Type} (ops : Ops V) (hd : DivOnly ops) (plain : Env V) (ss : List Stmt)
+    (hw : WellOrdered ss = true) (st : DState V) (hrun : runDef ops ⟨plain, []⟩ ss = .ok st)
+    (x : String) (v : V) (hx : x ∉ assigned ss) (envI : Env V) (hI : runImm ops (plain.set x v) ss = .ok envI) :
+    (st.update x v).env ops = .ok envI :=
+  deferred_follows_updates ops hd plain ss hw st hrun x v hx envI hI
+
+/-- as an equation, exceptions included, for lists of assignments only and under the hypothesis of `C19_agree` on the
+    re-run -/
+theorem C19_assign_follows_updates_eq {V : Type} (ops : Ops V) (hd : DivOnly ops) (plain : Env V)
+    (ds : List (String × MTree)) (hw : OrderedDefs ds = true) (st : DState V)
+    (hrun : runDef ops ⟨plain, []⟩ (ds.map (fun d => Stmt.assign d.1 d.2)) = .ok st)
+    (us : List (String × V)) (hus : ∀ u ∈ us, u.1 ∉ names ds)
+    (h : runImm ops (plain.sets us) (ds.map (fun d => Stmt.assign d.1 d.2)) ≠ .error .zeroDiv) :
+    (st.updates us).env ops = runImm ops (plain.sets us) (ds.map (fun d => Stmt.assign d.1 d.2)) :=
+  deferred_follows_updates_eq ops hd plain ds hw st hrun us hus h
+
+/-- **the model's deferred state is the push model**: on `OrderedDefs` (the definitions of a `WellOrdered` list) what
+    `settle` returns satisfies `Consistent` — undefined variables hold their plain values, every defined variable holds
+    the value of its tree on that very environment — and it is the only environment that does -/
+theorem C19_assign_push_model {V : Type} (ops : Ops V) (plain : Env V) (ds : List (String × MTree))
+    (ho : OrderedDefs ds = true) :
+    (∀ env, settle ops plain ds = .ok env → Consistent ops plain ds env) ∧
+    (∀ e1 e2, Consistent ops plain ds e1 → Consistent ops plain ds e2 → ∀ x, e1 x = e2 x) :=
+  ⟨fun env h => settle_consistent ops ds plain env ho h, fun e1 e2 h1 h2 => consistent_unique ops plain ds ho e1 e2 h1 h2⟩
+
+/-- the value of a tree depends on the environment only through the variables the tree reads -/
+theorem C19_assign_reads {V : Type} (ops : Ops V) (g : Bool) (e1 e2 : Env V) (t : MTree)
+    (h : ∀ r ∈ reads t, e1 r = e2 r) : evalI (ops.withEnv e1) g t = evalI (ops.withEnv e2) g t :=
+  evalI_congr ops g e1 e2 t h
+
+/-- **statement-level parser**: `name = <text>` is the assignment of the tree, for the fully parenthesised text
+    (`C19_full_paren_parse`) and for the minimal-parentheses text (`C19_minimal_paren_parse`) of every tree of the
+    parser's range; the text alone is an expression statement; and an assignment comes from `NAME "=" …` only -/
+theorem C19_assign_parse (n : String) (t : MTree) (h : WFTree t) :
+    parseStmt (.name n :: .assign :: fullParen t) = some (.assign n t) ∧
+    parseStmt (.name n :: .assign :: render t) = some (.assign n t) ∧
+    parseStmt (fullParen t) = some (.expr t) ∧
+    (∀ toks, parseStmt toks = some (.assign n t) ↔ ∃ rest, toks = .name n :: .assign :: rest ∧ parse rest = some t) :=
+  ⟨parseStmt_assign_fullParen n t h, parseStmt_assign_render n t h, parseStmt_expr_fullParen t h,
+   fun toks => parseStmt_assign_iff toks n t⟩
+
+/-- the immediate environment stays stale — the witness `t = a*2; x = t + b; a := 5` over `a = 2, b = 3`: with the
+    update made to it the immediate environment still holds `t = 4, x = 7`, the deferred one holds `t = 10, x = 13` -/
+theorem C19_assign_immediate_stale :
+    runImm demoOps demoPlain demoStmts = .ok ((demoPlain.set "t" 4).set "x" 7) ∧
+    (((demoPlain.set "t" 4).set "x" 7).set "a" 5) "t" = some 4 ∧
+    (((demoPlain.set "t" 4).set "x" 7).set "a" 5) "x" = some 7 ∧
+    (∃ st, runDef demoOps ⟨demoPlain, []⟩ demoStmts = .ok st ∧
+      (match (st.update "a" 5).env demoOps with | .ok e => (e "t", e "x") | _ => (none, none)) = (some 10, some 13)) :=
+  ⟨demo_imm, immediate_stale_witness.1, immediate_stale_witness.2.1, _, demo_def, by decide⟩
+
+/-- **the scope is needed**: (1) `x = t + 1; t = a*2` (a variable read before it is assigned): settling in list order
+    gives `x = 1, t = 4`, which does NOT satisfy the push-model specification — the manager pushes `x = 5`, the
+    immediate run gives `x = 1`, the semantics differ; (2) `t = a; u = t; t = 3` (a variable assigned twice): immediately
+    `u = 2`, deferred in the model `u = 0` (through the manager `u = 3`); (3) and the division guard: `t = a/(b-3)`
+    raises immediately and holds NaN deferred -/
+theorem C19_assign_scope_needed :
+    (WellOrdered demoLate = false ∧
+      settle demoOps demoPlain (defsOf demoLate) = .ok ((demoPlain.set "x" 1).set "t" 4) ∧
+      ¬ Consistent demoOps demoPlain (defsOf demoLate) ((demoPlain.set "x" 1).set "t" 4)) ∧
+    (WellOrdered demoTwice = false ∧
+      (match runImm demoOps demoPlain demoTwice with | .ok e => e "u" | _ => none) = some 2 ∧
+      (match (runDef demoOps ⟨demoPlain, []⟩ demoTwice).bind (fun st => st.env demoOps) with
+        | .ok e => e "u" | _ => none) = some 0) ∧
+    (runImm demoOps demoPlain [.assign "t" (.div (.var "a") (.sub (.var "b") (.number "3")))] = .error .zeroDiv ∧
+      (runDef demoOps ⟨demoPlain, []⟩ [.assign "t" (.div (.var "a") (.sub (.var "b") (.number "3")))]).bind
+        (fun st => st.env demoOps) = .ok (demoPlain.set "t" demoOps.nan)) :=
+  ⟨not_consistent_outside, redefinition_witness, zero_division_witness⟩
+
+section AssignExamples
+/- non-vacuity: the hypotheses of the three statement theorems hold on `t = a*2; x = t + b` over `a = 2, b = 3` with the
+   integer algebra `demoOps` (`DivOnly`: `demoOps_divOnly`), and the conclusions are the expected numbers -/
+example : WellOrdered demoStmts = true := by decide
+example : (runDef demoOps ⟨demoPlain, []⟩ demoStmts).bind (fun st => st.env demoOps)
+    = .ok ((demoPlain.set "t" 4).set "x" 7) := by
+  rw [C19_assign_deferred_eq_immediate demoOps demoOps_divOnly demoPlain demoStmts (by decide) (by rw [demo_imm]; nofun)]
+  exact demo_imm
+example : (DState.updates ⟨demoPlain, defsOf demoStmts⟩ [("a", 5), ("b", 1)]).env demoOps
+    = .ok ((((demoPlain.set "a" 5).set "b" 1).set "t" 10).set "x" 11) :=
+  (C19_assign_follows_updates demoOps demoOps_divOnly demoPlain demoStmts (by decide) _ demo_def [("a", 5), ("b", 1)]
+    (by decide) _ rfl).1
+example : Consistent demoOps demoPlain (defsOf demoStmts) ((demoPlain.set "t" 4).set "x" 7) :=
+  (C19_assign_push_model demoOps demoPlain (defsOf demoStmts) (by decide)).1 _ rfl
+-- the tokens of `t = a*2`, `t = (a*2)`, `(a*2)`
+example : parseStmt [.name "t", .assign, .name "a", .star, .num "2"]
+    = some (.assign "t" (.mul (.var "a") (.number "2"))) :=
+  (C19_assign_parse "t" (.mul (.var "a") (.number "2")) ⟨trivial, trivial⟩).2.1
+example : parseStmt [.name "t", .assign, .lpar, .name "a", .star, .num "2", .rpar]
+    = some (.assign "t" (.mul (.var "a") (.number "2"))) :=
+  (C19_assign_parse "t" (.mul (.var "a") (.number "2")) ⟨trivial, trivial⟩).1
+end AssignExamples
 
 end Properties.C19
